@@ -738,6 +738,28 @@ def c13_streams(rng, tier, budget):
         st.cmp(x, y)
         st.add("tag\tassoc\t%d\t%d" % (x, y))
     yield "path-ops", st
+    # "with_name(n) has … the same parent" and "u / s has parent parts equal to u's parts without a trailing empty segment",
+    # as URL-level equalities, over every base shape (authority or not; empty, root, one and two segments; trailing slash)
+    st2 = Stream()
+    for bs in ["/", "/t", "/t/", "/a/b", "t", "a/b", "", "x:/t", "x:t", "http://h", "http://h/", "http://h/t", "http://h/t/", "http://h/a/b", "//h/t", "http://h/t?q#f", "/t?q#f"]:
+        h = st2.new(bs)
+        st2.obs_all(h, ["val", "raw_parts"])
+        hp = st2.mod(h, "parent")
+        st2.obs_all(hp, ["val", "raw_parts"])
+        for nm in ("a", "x.y", ""):
+            v = st2.mod(h, "with_name", enc(nm), "F", "F")
+            vp = st2.mod(v, "parent")
+            st2.obs_all(v, ["val", "raw_name"])
+            st2.obs_all(vp, ["val", "raw_parts"])
+            st2.cmp(vp, hp)
+            st2.add("tag\tsame-parent\t%d\t%d" % (vp, hp))
+        for sg in ("a", "a b", "x.y"):
+            c = st2.mod(h, "truediv", enc(sg))
+            cp = st2.mod(c, "parent")
+            st2.obs_all(c, ["val"])
+            st2.obs_all(cp, ["val", "raw_parts"])
+            st2.add("tag\tchild-parent\t%d\t%d" % (cp, h))
+    yield "parents", st2
 
 
 def c13_oracle_full(full, io, b):
@@ -756,6 +778,29 @@ def c13_oracle_full(full, io, b):
                 plain = all(t and "." not in t for t in (sa, sc))
                 if a and c and a != c and plain:
                     out.append({"what": f"joinpath({sa!r}, {sc!r}) = {pretty_out(a)} but joinpath({sa!r}).joinpath({sc!r}) = {pretty_out(c)}", "class": "joinpath-assoc",
+                                "n": v.n_of(x, "val"), "also": [v.n_of(y, "val")], "input": describe_handle(full, x)})
+        if f[0] == "tag" and f[1] in ("same-parent", "child-parent"):
+            x, y = int(f[2]), int(f[3])
+            if not (v.alive(x) and v.alive(y)):
+                continue
+            a, c = v.get(x, "val"), v.get(y, "val")
+            if not (a and c and a.startswith("L5:") and c.startswith("L5:")):
+                continue
+            pa, pc = dlist(a), dlist(c)
+
+            def key(p_):          # C10's equality key: '' counts as '/' under an authority
+                return (p_[0], p_[1], "/" if (p_[1] and not p_[2]) else p_[2])
+            if f[1] == "same-parent":
+                if key(pa) != key(pc):
+                    out.append({"what": f"with_name: the parent of the result is {pretty_out(a)}, the parent of the URL it was applied to is {pretty_out(c)}", "class": "with-name-parent",
+                                "n": v.n_of(x, "val"), "also": [v.n_of(y, "val")], "input": describe_handle(full, x)})
+            else:
+                # parent(u / s) is u with query and fragment cleared and at most one trailing slash removed
+                want = {pc[2], pc[2][:-1] if pc[2].endswith("/") else pc[2]}
+                if pc[1]:
+                    want |= {"", "/"} if pc[2] in ("", "/") else set()
+                if (pa[0], pa[1]) != (pc[0], pc[1]) or pa[2] not in want or pa[3] or pa[4]:
+                    out.append({"what": f"(u / s).parent = {pretty_out(a)} for u = {pretty_out(c)}", "class": "child-parent",
                                 "n": v.n_of(x, "val"), "also": [v.n_of(y, "val")], "input": describe_handle(full, x)})
     return out
 
